@@ -8,10 +8,18 @@ Tie: tools/harness/c20_run.py runs the real SRTM30.elevation / get_tiles / get_g
 get_tile with synthetic tile files and a recording download stub; the model (`run_elevation`), the certified
 grid checker (`lat_ok`/`lon_ok`) and the cell specification (`world`) are evaluated on the same inputs inside
 Coq.  Coordinates reach Coq as the exact rationals of the doubles.
+Binary64 tie: Model/C20_float.v repeats the floating-point computations of get_native_grids / get_grids /
+get_tiles / the masks of elevation with Coq's primitive floats; the corners reach it as float.hex() literals and
+the returned grids (every value, bit for bit), the fetched tiles (in order), the cells and the tile grids are
+compared with the implementation.  Where the binary64 model and the rational model choose different blocks the
+case must lie within the proved margin (Props/C20.v, robust_margin: 2^-40 degree from a cell edge); otherwise it
+is a failing input.
 """
 import ast
 import json
 import math
+import os
+import random
 from concurrent.futures import ThreadPoolExecutor
 from fractions import Fraction
 from pathlib import Path
@@ -21,19 +29,26 @@ from lib.core import zlit, zlist, coq_list, coq_string, coq_bool
 
 HARNESS = core.VERIF / "tools" / "harness" / "c20_run.py"
 GENFILE = core.GEN / "C20_tiles.v"
-PREAMBLE = "From Typhon Require Import Model.C20_srtm.\nFrom TyphonGen Require Import C20_tiles.\nOpen Scope string_scope.\n"
+PREAMBLE = ("From Coq Require Import PrimFloat.\nFrom Typhon Require Import Model.C20_srtm Model.C20_margin Model.C20_float.\n"
+            "From TyphonGen Require Import C20_tiles.\nOpen Scope string_scope.\n")
 TRUSTED = [
     "correspondence harness tools/props/c20.py + tools/harness/c20_run.py (generators, exact rationals of the doubles, "
-    "snapping of returned grid values to the half-cell lattice with tolerance 1e-6 cell, synthetic world raster, "
+    "snapping of returned grid values to the half-cell lattice with tolerance 2^-40 degree, synthetic world raster, "
     "numpy proxy serving tile files by NAME, download recorder)",
     "table translation: ast.literal_eval of SRTM30._tiles/_tile_height/_tile_width into coq/gen/C20_tiles.v; "
     "_dlat = _dlon = 1/120 checked against the running module",
     "numpy semantics (trunc, arange, linspace, boolean-mask selection and assignment in C order, float % and comparisons), "
     "os.path.exists, np.fromfile: exercised, modelled, not verified",
-    "IEEE rounding in get_native_grids: bridged per case (exact for dyadic coordinates; coordinates within 1e-9 cell of a "
-    "grid line that are not exactly on it are boundary cases, either neighbouring outcome accepted)",
+    "IEEE rounding: the binary64 model Model/C20_float.v (Coq primitive floats = the machine's binary64 operations; "
+    "numpy's trunc / arange / linspace / % / min / max as described at the top of that file) is compared bit for bit "
+    "with the implementation on every case but nothing is proved about it; corners within 2^-40 degree of a cell edge "
+    "that are not exactly on it are boundary cases (either neighbouring outcome accepted) - everywhere else the "
+    "block must be the one of exact arithmetic (robust_margin says that block does not depend on perturbations "
+    "of the corners up to the margin)",
 ]
-GUARD = Fraction(1, 10**9)          # guard band around a grid line, in cells
+MARGIN_LOG2 = 40
+MARGIN = Fraction(1, 2**MARGIN_LOG2)   # degrees: the margin of Props/C20.v robust_margin (Model/C20_margin.v margin40)
+STRICT = os.environ.get("VERIF_C20_STRICT", "0") == "1"   # report every deviation from the binary64 model, also tolerated ones
 MODEL_CELLS = 900                   # up to here the algorithmic model's whole matrix is compared too
 
 
@@ -103,10 +118,51 @@ def coq_rect(fr):
 
 
 def near_line(q):
-    """(is_boundary, line) -- q [deg] within the guard band of a grid line without being exactly on it."""
-    c = q * 120
-    k = round(c)
-    return (c != k and abs(c - k) < GUARD), Fraction(k, 120)
+    """(is_boundary, line) -- q [deg] within the margin of a cell edge without being exactly on it."""
+    line = Fraction(round(q * 120), 120)
+    return (q != line and abs(q - line) <= MARGIN), line
+
+
+def off_edges(q):
+    """q [deg] is farther than the margin from every cell edge (Model/C20_margin.v off_edges_b, decided in Coq too)."""
+    return abs(q - Fraction(round(q * 120), 120)) > MARGIN
+
+
+def snap(q):
+    """The cell edge within the margin of q [deg], or None."""
+    line = Fraction(round(q * 120), 120)
+    return line if abs(q - line) <= MARGIN else None
+
+
+def fhex(x):
+    """A double as a Coq primitive-float literal."""
+    return f"({float(x).hex()})%float"
+
+
+def fkey(x):
+    """The key Model/C20_float.v fkey prints for a double: (m, e) with value m * 2^e, m of 53 bits."""
+    x = float(x)
+    if x != x:
+        return (0, 9999)
+    if x in (math.inf, -math.inf):
+        return (1 if x > 0 else -1, 9999)
+    if x == 0:
+        return (0, -1 if math.copysign(1.0, x) < 0 else 0)
+    m, e = math.frexp(x)
+    m, e = int(m * 2**53), e - 53
+    while e < -1074:
+        m, e = m // 2, e + 1
+    return (m, e)
+
+
+def key_value(k):
+    return Fraction(k[0]) * Fraction(2) ** k[1] if k[1] != 9999 else None
+
+
+def nudge(x, n):
+    for _ in range(abs(n)):
+        x = math.nextafter(x, math.inf if n > 0 else -math.inf)
+    return x
 
 
 def variants(q):
@@ -148,10 +204,28 @@ def gen_coord(rng, base_cells, style):
             c = Fraction(x) * 120
             if abs(c - round(c)) > Fraction(1, 10**6):
                 return x
+    # ---- coordinates that are not exactly representable, or a few ulps / a little more than the margin off an edge
+    k = round(base_cells)
+    if style == "ulp_edge":                         # the double next to k/120, moved by up to 4 ulps: inside the margin
+        return nudge(k / 120.0, rng.randint(-4, 4))
+    if style == "ulp_tile":                         # a few ulps off a 10-degree line (tile borders are among them)
+        return nudge(round(base_cells / 1200) * 10.0, rng.choice([-3, -2, -1, 1, 2, 3]))
+    if style == "edge_close":                       # 2^-39 .. 2^-30 degree off an edge: outside the margin, exact result required
+        while True:
+            d = Fraction(1, 2 ** rng.choice([39, 38, 37, 36, 34, 32, 30])) * rng.choice([-1, 1])
+            x = float(Fraction(k, 120) + d)
+            if off_edges(Fraction(x)):
+                return x
+    if style == "dec1":                             # one decimal (10.1): an edge as a real number, never as a double
+        return round(base_cells / 120.0, 1)
+    if style == "third":                            # multiples of 1/3 degree: edges as real numbers
+        return round(base_cells / 40) / 3.0
+    if style == "seventh":                          # multiples of 1/7 degree: not representable, far from every edge
+        return round(base_cells / 120.0 * 7) / 7.0
     raise ValueError(style)
 
 
-def gen_rect(rng):
+def gen_rect(rng, fam=None):
     focus = rng.choice(["interior", "interior", "hborder", "vborder", "corner", "corner", "outer", "pm180", "pole"])
     if focus == "interior":
         la, lo = rng.uniform(-59, 89), rng.uniform(-179, 179)
@@ -167,7 +241,8 @@ def gen_rect(rng):
         la, lo = rng.choice([40, -10, rng.uniform(-59, 89)]), rng.choice([-180, 180])
     else:
         la, lo = rng.choice([90, -60]), rng.uniform(-179, 179)
-    size = rng.choice(["thin", "thin", "small", "small", "small", "medium", "medium", "long", "big"])
+    size = rng.choice(["thin", "thin", "small", "small", "small", "medium", "medium", "long", "big"]) if fam is None else \
+        rng.choice(["thin", "thin", "small", "small", "small", "medium"])
     if size == "thin":
         h, w = rng.choice([(rng.uniform(0.05, 0.9), rng.uniform(0.05, 0.9)), (rng.uniform(0.05, 0.9), rng.randint(1, 12)),
                            (rng.randint(1, 12), rng.uniform(0.05, 0.9))])
@@ -192,10 +267,13 @@ def gen_rect(rng):
         o0, o1 = -21600, -21600 + w
     if o1 > 21600:
         o0, o1 = 21600 - w, 21600
-    fam = rng.choice(["dy", "dy", "dy", "dec", "mixed"])
+    if fam is None:
+        fam = rng.choice(["dy", "dy", "dy", "dec", "mixed"])
     styles = {"dy": ["dy_aligned", "dy_unaligned", "dy_unaligned", "dy_nearline"],
               "dec": ["dec_aligned", "dec_unaligned", "dec_unaligned"],
-              "mixed": ["dy_aligned", "dy_unaligned", "dec_unaligned", "dy_nearline", "dec_aligned"]}[fam]
+              "mixed": ["dy_aligned", "dy_unaligned", "dec_unaligned", "dy_nearline", "dec_aligned"],
+              "fp": ["ulp_edge", "ulp_edge", "edge_close", "edge_close", "ulp_tile", "dec1", "third", "seventh",
+                     "dec_unaligned", "dy_aligned"]}[fam]
     for _ in range(50):
         st = [rng.choice(styles) for _ in range(4)]
         r = [gen_coord(rng, a0, st[0]), gen_coord(rng, o0, st[1]), gen_coord(rng, a1, st[2]), gen_coord(rng, o1, st[3])]
@@ -223,6 +301,42 @@ def gen_tiles_rect(rng):
     return [-60.0, -180.0, 90.0, 180.0]
 
 
+def gen_tiles_rect_fp(rng):
+    """Rectangles for get_tiles with edges a few ulps off tile borders and the +-180 / -60 / 90 limits."""
+    def coord(lo, hi, borders):
+        s = rng.random()
+        if s < 0.6:
+            return nudge(float(rng.choice(borders)), rng.randint(-3, 3))
+        if s < 0.8:
+            return rng.choice([-1, 1]) * round(rng.uniform(0, 1e-12), 16)     # around 0: x % 360 rounds
+        return round(rng.uniform(lo, hi), 1)
+    for _ in range(100):
+        la = sorted(coord(-60, 90, [-60, -10, 40, 90]) for _ in range(2))
+        lo = sorted(coord(-180, 180, list(range(-180, 181, 40))) for _ in range(2))
+        r = [min(max(la[0], -60.0), 90.0), min(max(lo[0], -180.0), 180.0), min(max(la[1], -60.0), 90.0), min(max(lo[1], -180.0), 180.0)]
+        if r[0] < r[2] and r[1] < r[3]:
+            return r
+    return [-60.0, -180.0, 90.0, 180.0]
+
+
+FIXED_FP_RECTS = [                                  # binary64 situations: not representable, a few ulps off an edge
+    [10.1, 1 / 3, 10.3, 2 / 3],                     # every corner an edge as a real number, none as a double
+    [0.1, 0.1, 0.7, 0.9],
+    [-53.99166666666669, 10.0625, -52.96041666666669, 11.0625],      # lat_min 4 ulps below an edge
+    [10.0625, 150.65833333333327, 11.0625, 151.68958333333327],      # lon_min 2 ulps below an edge
+    [-50.831249999999976, 10.0625, -49.799999999999976, 11.0625],    # lat_max above an edge by 3 ulps
+    [10.0625, 86.95208333333332, 11.0625, 87.98333333333332],        # lon_max below an edge by 1 ulp
+    [10.0625, 88.775, 11.0625, 89.80625],                            # lon_min = 88.775: the double is above the edge
+    [39.5, 19.5, nudge(40.0, 1), nudge(20.0, 1)],                    # one ulp across the corner of four tiles
+    [nudge(40.0, -1), nudge(20.0, -1), 40.5, 20.5],
+    [nudge(-10.0, 1), nudge(-140.0, 2), -9.5, -139.5],
+    [-59.99, nudge(-180.0, 1), -59.9, -179.9],                       # one ulp inside the western limit
+    [89.9, 179.9, nudge(90.0, -1), nudge(180.0, -1)],                # one ulp inside the north-eastern corner
+    [1 / 7, 2 / 7, 3 / 7, 5 / 7],                                    # not representable, far from every edge
+    [10.0 + 2.0**-38, 10.0 - 2.0**-38, 10.5 - 2.0**-39, 10.5 + 2.0**-39],   # just outside the margin: exact block required
+]
+
+
 FIXED_RECTS = [                                     # always run: the situations the quantifier names
     [10.0, 10.0, 10.125, 10.125],                   # aligned, one tile
     [10.01, 10.01, 10.02, 10.03],                   # unaligned (decimal)
@@ -243,6 +357,7 @@ def gen_cases(ctx):
     rng = ctx.rng
     cases = []
     n_elev, n_tiles, n_hist = ctx.n(170, 1300), ctx.n(120, 2000), ctx.n(12, 100)
+    n_fp, n_tiles_fp = ctx.n(70, 700), ctx.n(40, 600)
 
     def new(ops, warm=(), tag=None):
         cases.append({"id": len(cases), "warm": sorted(warm), "ops": ops, "tag": tag})
@@ -271,6 +386,16 @@ def gen_cases(ctx):
                 d = rng.choice([0.0, 0.0625])       # inside the tile, or across its upper-left corner
                 ops.append(["elev", [la - 0.125, max(lo - d, -180.0), min(la + d, 90.0), lo + 0.125]])
         new(ops, warm=[n for n in pool if rng.random() < 0.4], tag={"focus": "history"})
+    # binary64 families, from a stream of their own (the cases above stay what they were before these were added)
+    rng2 = random.Random(f"C20fp:{ctx.seed}")
+    for r in FIXED_FP_RECTS:
+        new([["elev", r]], warm=FILES, tag={"focus": "fixed-fp"})
+        new([["tiles", r]], tag={"focus": "fixed-fp"})
+    for _ in range(n_fp):
+        r, tag = gen_rect(rng2, fam="fp")
+        new([["elev", r]], warm=FILES, tag=tag)
+    for k in range(0, n_tiles_fp, 10):
+        new([["tiles", gen_tiles_rect_fp(rng2)] for _ in range(10)], tag={"focus": "tiles-fp"})
     return cases
 
 
@@ -318,11 +443,16 @@ def elev_expr(rect, res):
     fr = rect_fracs(rect)
     boundary = any(near_line(q)[0] for q in fr)
     r = coq_rect(fr)
-    info = {"boundary": boundary, "cov": in_coverage(fr)}
+    info = {"boundary": boundary, "cov": in_coverage(fr),
+            # both ends of one side within the margin of the SAME edge: thinner than the margin
+            "thin": (snap(fr[0]) is not None and snap(fr[0]) == snap(fr[2])) or (snap(fr[1]) is not None and snap(fr[1]) == snap(fr[3]))}
     la, lo, z = res.get("lats"), res.get("lons"), res.get("z")
+    corners = " ".join(fhex(x) for x in rect)
+    off = f"rect_off_edges_b margin40 {r}"
     if la is None or lo is None or z is None:
-        # nothing comparable came back: evaluate the model alone
-        return f"(0, in_coverage_b {r}, run_elevation {ORIGIN} false {r})", info
+        # nothing comparable came back: evaluate the models alone
+        return (f"(0, in_coverage_b {r}, run_elevation {ORIGIN} false {r}, {off}, "
+                f"fcompare {ORIGIN} [] [] [] {r} {corners})"), info
     lat_vars = [[a, fr[1], b, fr[3]] for a in variants(fr[0]) for b in variants(fr[2]) if a < b]
     lon_vars = [[fr[0], a, fr[2], b] for a in variants(fr[1]) for b in variants(fr[3]) if a < b]
     cells = len(la) * len(lo)
@@ -339,18 +469,21 @@ def elev_expr(rect, res):
     e = (f"(1, in_coverage_b {r}, {run}, "
          f"{coq_list([f'lat_ok {coq_rect(v)} {zlist(la)}' for v in lat_vars])}, "
          f"{coq_list([f'lon_ok {coq_rect(v)} {zlist(lo)}' for v in lon_vars])}, "
-         f"diff (world_matrix {zlist(lats_sel)} {zlist(lons_sel)}) {zc})")
+         f"diff (world_matrix {zlist(lats_sel)} {zlist(lons_sel)}) {zc}, {off}, "
+         f"fcompare {ORIGIN} {zlist(res['rsel'])} {zlist(res['csel'])} {zc} {r} {corners})")
     return e, info
 
 
 def tiles_expr(rect):
-    return f"(in_coverage_b {coq_rect(rect_fracs(rect))}, get_tiles {coq_rect(rect_fracs(rect))})"
+    return (f"(in_coverage_b {coq_rect(rect_fracs(rect))}, get_tiles {coq_rect(rect_fracs(rect))}, "
+            f"fget_tiles {' '.join(fhex(x) for x in rect)})")
 
 
-def grids_expr(name):
+def grids_expr(name, pos):
     return (f"(match find_tile {coq_string(name)} with Some t => "
             f"[summary (-2) (tile_lats t); summary 2 (tile_lons t); summary (-2) (native_lats (tile_rect t)); "
-            f"summary 2 (native_lons (tile_rect t))] | None => [] end)")
+            f"summary 2 (native_lons (tile_rect t))] | None => [] end, "
+            f"fgrids {coq_string(name)} {zlist(pos[0])} {zlist(pos[1])})")
 
 
 def cache_expr(warm, reqs):
@@ -384,6 +517,9 @@ def check_cases(ctx, cases):
         ctx.fail("translation", f"SRTM30._dlat/_dlon are {meta['dlat']!r}/{meta['dlon']!r}, the model assumes 1/120 degree",
                  obligation="cell size", signature="translation-cell-size")
     exprs, index = [], []                      # index: (case no, op no, kind, info)
+    if meta:
+        exprs.append("[fkey fdlat; fkey fdlon]")
+        index.append((None, -1, "meta", {}))
     for ci, c in enumerate(cases):
         res = results.get(ci)
         if res is None:
@@ -404,7 +540,7 @@ def check_cases(ctx, cases):
                 exprs.append(tiles_expr(op[1]))
                 index.append((ci, oi, "tiles", {}))
             elif op[0] == "grids":
-                exprs.append(grids_expr(op[1]))
+                exprs.append(grids_expr(op[1], r.get("pos") or [[], []]))
                 index.append((ci, oi, "grids", {}))
         if malformed:
             ctx.fail("failing-input", "a download was not followed by the read of that tile", case=c, impl=res,
@@ -418,8 +554,19 @@ def check_cases(ctx, cases):
         ctx.log(log[-2000:])
     nontrivial = set()
     stats = {"elev": 0, "elev_boundary": 0, "elev_model_matrix": 0, "tiles": 0, "grids": 0, "cache_requests": 0,
-             "downloads": 0, "multi_tile": 0, "extra_tiles_on_border": 0, "cells_checked": 0}
+             "downloads": 0, "multi_tile": 0, "extra_tiles_on_border": 0, "cells_checked": 0,
+             "f64_elev": 0, "f64_grid_values_compared": 0, "f64_grids_bit_exact": 0, "f64_tiles_same_order": 0,
+             "f64_cells_identical": 0, "f64_deviations_tolerated": 0, "f64_unrepresentable_corner": 0,
+             "f64_vs_rational_differ": 0, "f64_vs_rational_differ_within_margin": 0, "f64_tiles": 0, "f64_tiles_identical": 0,
+             "f64_tile_grid_values_bit_exact": 0, "f64_empty_thinner_than_margin": 0}
     for (ci, oi, kind, info), v in zip(index, vals):
+        if kind == "meta":
+            want = [fkey(float.fromhex(meta.get("dlat_x", "0x0p+0"))), fkey(float.fromhex(meta.get("dlon_x", "0x0p+0")))]
+            if v is None or [tuple(k) for k in v] != want:
+                ctx.fail("translation", f"SRTM30._dlat/_dlon are {meta.get('dlat_x')}/{meta.get('dlon_x')} but the binary64 model "
+                         f"computes 50.0 / _tile_height, 40.0 / _tile_width = {v}", obligation="cell size (binary64)",
+                         signature="translation-cell-size")
+            continue
         c = cases[ci]
         res = results[ci]
         ctx.cov["evaluations"] += 1
@@ -433,9 +580,23 @@ def check_cases(ctx, cases):
             stats["tiles"] += 1
             rect = c["ops"][oi][1]
             r = res["ops"][oi]
-            cov, model = v
+            cov, model, fmodel = v
             fr = rect_fracs(rect)
-            edge = any(q % 10 != 0 and abs(q / 10 - round(q / 10)) < Fraction(1, 10**10) for q in fr)
+            edge = any(q % 10 != 0 and abs(q - 10 * round(q / 10)) <= MARGIN for q in fr)
+            stats["f64_tiles"] += 1
+            if "tiles" in r:
+                if list(r["tiles"]) == list(fmodel):
+                    stats["f64_tiles_identical"] += 1
+                elif STRICT or (sorted(r["tiles"]) != sorted(fmodel) and not (edge and sorted(r["tiles"]) == sorted(model))):
+                    # (an edge within the margin of a tile border: the answer of exact arithmetic is accepted as well)
+                    ctx.fail("correspondence", f"get_tiles{tuple(rect)} names {r['tiles']}, the binary64 model {fmodel}",
+                             case=one, impl=r["tiles"], model=fmodel, signature="float-model-tiles")
+                else:
+                    stats["f64_deviations_tolerated"] += 1
+            if sorted(fmodel) != sorted(model):
+                stats["f64_vs_rational_differ"] += 1
+                if edge:
+                    stats["f64_vs_rational_differ_within_margin"] += 1
             if edge:
                 continue
             if "error" in r:
@@ -455,7 +616,19 @@ def check_cases(ctx, cases):
                 ctx.fail("failing-input", f"get_grids/get_native_grids of tile {name} raised {r['error']}", case=one, impl=r,
                          signature="tile-grids")
                 continue
-            model = [list(x) for x in v]
+            model = [list(x) for x in v[0]]
+            fbits = [[tuple(k) for k in l] for l in v[1]]
+            ibits = [[fkey(float.fromhex(h)) if h is not None else None for h in l] for l in r.get("bits", [])]
+            if fbits == ibits:
+                stats["f64_tile_grid_values_bit_exact"] += sum(len(l) for l in ibits)
+            else:
+                worst = max((abs(key_value(a) - key_value(b)) for la_, lb_ in zip(fbits, ibits) for a, b in zip(la_, lb_)
+                             if a is not None and b is not None and a[1] != 9999 and b[1] != 9999), default=None)
+                if STRICT or worst is None or worst > MARGIN or [len(l) for l in fbits] != [len(l) for l in ibits]:
+                    ctx.fail("correspondence", f"tile grids of {name}: values differ from the binary64 model (largest difference "
+                             f"{float(worst) if worst is not None else None} degree)", case=one, signature="float-model-grids")
+                else:
+                    stats["f64_deviations_tolerated"] += 1
             impl = [r["glat"], r["glon"], r["nlat"], r["nlon"]]
             if impl[0] != impl[2] or impl[1] != impl[3] or not r["allclose"]:
                 ctx.fail("failing-input", f"get_native_grids of the bounds of {name} is {impl[2:]} (first, last, length, regular) "
@@ -504,6 +677,14 @@ def judge_elev(ctx, one, rect, r, v, info, stats, nontrivial):
                  case=one, signature="model-vs-theorem")
     where = f"SRTM30.elevation{tuple(rect)}"
     if "error" in r:
+        fst = v[4][0] if flag == 0 and len(v) > 4 else None
+        if boundary and info.get("thin") and fst == "FEmpty" and "zero-size" in r["error"]:
+            # a rectangle thinner than the margin around one cell edge: binary64 arithmetic sees it as empty
+            stats["f64_empty_thinner_than_margin"] += 1
+            if len(ctx.cov.setdefault("f64_notes", [])) < 12:
+                ctx.cov["f64_notes"].append(f"{where} (thinner than 2^-{MARGIN_LOG2} degree around a cell edge) raised {r['error'][:60]}; "
+                                            "the binary64 model computes an empty grid too")
+            return
         ctx.fail(kind, f"{where} raised {r['error']}", case=one, impl=r["error"], model=status, signature="elevation-error")
         return
     if flag == 0:
@@ -560,6 +741,7 @@ def judge_elev(ctx, one, rect, r, v, info, stats, nontrivial):
                          impl=fetched, model=m_tiles, signature="tiles-read")
     if info.get("with_matrix"):
         stats["elev_model_matrix"] += 1
+    judge_float(ctx, one, rect, r, v[7], v[6], info, stats, ok, fetched, m_tiles, where, kind)
     fr = rect_fracs(rect)
     unaligned = any((q * 120).denominator != 1 for q in fr)
     if cov and not boundary and (unaligned or len(m_tiles) > 1):
@@ -567,6 +749,78 @@ def judge_elev(ctx, one, rect, r, v, info, stats, nontrivial):
     if len(m_tiles) > 1 or one["id"] % 9 == 0:
         ctx.sample({"elevation": rect, "rows": len(la), "columns": len(lo), "tiles": m_tiles,
                     "first_cell": [la[0], lo[0], r["z"][0][0]], "tag": one.get("tag")}, limit=8)
+
+
+def judge_float(ctx, one, rect, r, fv, off_b, info, stats, ok, fetched, m_tiles, where, kind):
+    """The implementation against the binary64 model (bit for bit), and the binary64 model against the rational one."""
+    fr = rect_fracs(rect)
+    boundary = info["boundary"]
+    stats["f64_elev"] += 1
+    if any((q * 120).denominator > 2**20 for q in fr):
+        stats["f64_unrepresentable_corner"] += 1
+    if bool(off_b) != all(off_edges(q) for q in fr):
+        ctx.fail("correspondence", "margin test differs between harness and Coq (rect_off_edges_b)", case=one,
+                 signature="harness-margin")
+    fst, lak, lok, sums, same, names, sels, fdiff = fv
+    la, lo = r["lats"], r["lons"]
+    devs, index_dev = [], False
+    for what, hx, mk in (("latitudes", r.get("lats_x", []), lak), ("longitudes", r.get("lons_x", []), lok)):
+        a, b = [fkey(float.fromhex(h)) for h in hx], [tuple(k) for k in mk]
+        stats["f64_grid_values_compared"] += len(a)
+        if a == b:
+            continue
+        vals_ok = len(a) == len(b) and all(x[1] != 9999 and y[1] != 9999 and abs(key_value(x) - key_value(y)) <= MARGIN
+                                          for x, y in zip(a, b))
+        k = next((i for i, (x, y) in enumerate(zip(a, b)) if x != y), min(len(a), len(b)))
+        if vals_ok:
+            devs.append(("values", f"{what}[{k}] is {hx[k]}, the binary64 model computes "
+                                   f"{float(key_value(b[k])).hex()} (same cells, other bits)"))
+        else:
+            index_dev = True
+            devs.append(("index", f"{len(a)} {what}, the binary64 model computes {len(b)}; first difference at [{k}]"))
+    if fst != "FOk":
+        index_dev = True
+        devs.append(("index", f"the binary64 model ends in {fst}"))
+    if not devs:
+        stats["f64_grids_bit_exact"] += 1
+    if list(fetched) == list(names):
+        stats["f64_tiles_same_order"] += 1
+    elif sorted(fetched) == sorted(names):
+        devs.append(("order", f"tiles read in the order {fetched}, the binary64 model reads {names}"))
+    else:
+        devs.append(("tiles", f"tiles read {fetched}, the binary64 model reads {names}"))
+    if not index_dev:
+        if fdiff:
+            i, j, want, got = fdiff[0]
+            devs.append(("cells", f"cell [{i}, {j}] of the selection holds {got}, the binary64 model puts {want} there"))
+        else:
+            stats["f64_cells_identical"] += 1
+    if STRICT:
+        serious = devs
+    else:
+        # a corner within the margin: another neighbouring block (accepted by the certified checker, cells as the
+        # specification has them) is tolerated, and with it the tiles that block needs
+        other_block = index_dev and boundary and ok
+        serious = [d for d in devs if (d[0] == "index" and not other_block) or d[0] == "cells" or
+                   (d[0] == "tiles" and not other_block and
+                    not (set(m_tiles) <= set(fetched) and tile_border_on_block_edge(la, lo)))]
+    if serious:
+        ctx.fail("correspondence", f"{where} differs from the binary64 model: " + "; ".join(t for _, t in serious),
+                 case=one, impl={"rows": len(la), "columns": len(lo), "tiles": fetched},
+                 model={"rows_cols": sums, "tiles": names, "selections": sels}, signature="float-model")
+    elif devs:
+        stats["f64_deviations_tolerated"] += 1
+        if len(ctx.cov.setdefault("f64_notes", [])) < 12:
+            ctx.cov["f64_notes"].append(f"tolerated deviation from the binary64 model at {where}: " + "; ".join(t for _, t in devs)[:300])
+    if not all(same):
+        stats["f64_vs_rational_differ"] += 1
+        if boundary:
+            stats["f64_vs_rational_differ_within_margin"] += 1
+        elif not index_dev:
+            ctx.fail(kind, f"{where}: binary64 arithmetic selects rows/columns {sums} (first, last, count), exact arithmetic on the "
+                     f"same doubles selects another block, although every corner is either exactly on a cell edge or farther "
+                     f"than 2^-{MARGIN_LOG2} degree from every edge (outside the margin of robust_margin)", case=one,
+                     impl=sums, signature="float-vs-exact")
 
 
 def finish(ctx, cases, nontrivial):
@@ -580,21 +834,27 @@ def finish(ctx, cases, nontrivial):
         "focus": {k: sum(1 for t in tags if t.get("focus") == k) for k in sorted({t.get("focus") for t in tags if t.get("focus")})},
         "size": {k: sum(1 for t in tags if t.get("size") == k) for k in sorted({t.get("size") for t in tags if t.get("size")})},
         "coordinate_styles": {k: sum(t.get("styles", []).count(k) for t in tags)
-                              for k in ("dy_aligned", "dy_unaligned", "dy_nearline", "dec_aligned", "dec_unaligned")},
+                              for k in ("dy_aligned", "dy_unaligned", "dy_nearline", "dec_aligned", "dec_unaligned", "ulp_edge",
+                                        "ulp_tile", "edge_close", "dec1", "third", "seventh")},
     }
     ctx.assumptions += [
         "rectangle inside the covered area: -60 <= lat_min < lat_max <= 90, -180 <= lon_min < lon_max <= 180 "
         "(hypothesis in_coverage of the theorems, evaluated per case in Coq)",
         "the tile table is well formed (table_ok: proved by computation on the translated table on every run)",
         "tile FILES hold the window their NAME stands for (SRTM30 naming); a downloaded tile appears as NAME.DEM",
-        "cell size exactly 1/120 degree in the model; doubles enter as exact rationals; guard band 1e-9 cell",
+        "cell size exactly 1/120 degree in the rational model; doubles enter as exact rationals (rational model) and as "
+        "float.hex() literals (binary64 model); margin 2^-40 degree around cell edges (robust_margin)",
     ]
+    st = ctx.cov.get("stats", {})
+    if st.get("f64_deviations_tolerated"):
+        ctx.log(f"NOTE {st['f64_deviations_tolerated']} deviations from the binary64 model tolerated (same cells with other bits, "
+                f"another tile order, or another neighbouring block for a corner within the margin)")
     return ctx.finish(trusted_base=TRUSTED)
 
 
 def run(ctx):
     translate_table(ctx)
-    ctx.prove("Props/C20.v")
+    ctx.prove("Props/C20.v", extra_targets=["Model/C20_float.v", "Model/C20_margin.v"])
     cases = gen_cases(ctx)
     nt = check_cases(ctx, cases)
     return finish(ctx, cases, nt)
@@ -602,6 +862,9 @@ def run(ctx):
 
 def replay(ctx, rec):
     translate_table(ctx)
+    ok, log, _ = core.coq_build(["Model/C20_float.v", "Model/C20_margin.v"])
+    if not ok:
+        print(log[-2000:])
     case = rec["case"]
     case.setdefault("warm", [])
     check_cases(ctx, [case])
